@@ -263,6 +263,68 @@ def _structure(body, on_return):
     return out
 
 
+
+def _expressionize(body, env=None, depth=0):
+    """Turn a helper body made of pure single-assignment bindings, if/else ladders, search loops and returns into
+    ONE expression (conditional-expression tree), or raise NotInlinable.  `if c: return a` + rest becomes
+    `a if c else <rest>`; `for x in it: if t: return v` + `return w` becomes `any(t for x in it)` (v, w = True,
+    False), `not any(...)` (False, True) or `next((v for x in it if t), w)`.  Evaluation order is that of the
+    statements; bindings are substituted, so they must be effect-free."""
+    env = dict(env or {})
+    if depth > 12:
+        raise NotInlinable("helper too deeply nested to express as one expression")
+
+    def sub(e):
+        if not env:
+            return copy.deepcopy(e)
+        return _Subst(env, {}).visit(copy.deepcopy(e))
+
+    body = _strip_doc(list(body))
+    for i, st in enumerate(body):
+        rest = body[i + 1 :]
+        if isinstance(st, ast.Return):
+            return sub(st.value) if st.value is not None else ast.Constant(value=None)
+        if isinstance(st, ast.Assign) and len(st.targets) == 1 and isinstance(st.targets[0], ast.Name):
+            v = sub(st.value)
+            if _has_effect(v) and not _is_pure(v):
+                raise NotInlinable("binding with an effect")
+            env[st.targets[0].id] = v
+            continue
+        if isinstance(st, ast.If):
+            t = sub(st.test)
+            a = _expressionize(list(st.body) + ([] if _terminates(st.body) else rest), env, depth + 1)
+            b = _expressionize(list(st.orelse) + ([] if (st.orelse and _terminates(st.orelse)) else rest), env, depth + 1)
+            return ast.IfExp(test=t, body=a, orelse=b)
+        if isinstance(st, ast.For) and not st.orelse and len(st.body) == 1 and isinstance(st.body[0], ast.If) and not st.body[0].orelse \
+                and len(st.body[0].body) == 1 and isinstance(st.body[0].body[0], ast.Return) and rest and isinstance(rest[0], ast.Return):
+            inner = st.body[0]
+            v = inner.body[0].value
+            w = rest[0].value
+            gen = ast.comprehension(target=copy.deepcopy(st.target), iter=sub(st.iter), ifs=[], is_async=0)
+            shadow = {n.id for n in ast.walk(st.target) if isinstance(n, ast.Name)}
+            saved = env
+            env = {k: x for k, x in env.items() if k not in shadow}
+            test = sub(inner.test)
+            vv = sub(v) if v is not None else ast.Constant(value=None)
+            env = saved
+            ww = sub(w) if w is not None else ast.Constant(value=None)
+
+            def isconst(x, val):
+                return isinstance(x, ast.Constant) and x.value is val
+
+            if isconst(vv, True) and isconst(ww, False):
+                return ast.Call(func=ast.Name(id="any", ctx=ast.Load()), args=[ast.GeneratorExp(elt=test, generators=[gen])], keywords=[])
+            if isconst(vv, False) and isconst(ww, True):
+                return ast.UnaryOp(op=ast.Not(), operand=ast.Call(func=ast.Name(id="any", ctx=ast.Load()), args=[ast.GeneratorExp(elt=test, generators=[gen])], keywords=[]))
+            raise NotInlinable("search loop returning a value (only boolean search loops are expressed, as any(...))")
+        if isinstance(st, ast.Pass):
+            continue
+        if isinstance(st, ast.Expr) and isinstance(st.value, ast.Constant):
+            continue
+        raise NotInlinable("statement %s cannot be part of an expression" % type(st).__name__)
+    return ast.Constant(value=None)
+
+
 class Inliner:
     def __init__(self, modules, depth=4):
         self.modules = modules  # name -> model.Module
@@ -383,7 +445,7 @@ class Inliner:
         return None, None
 
     # -- expansion -------------------------------------------------------------
-    def _bind(self, h, call, recv, caller_names):
+    def _bind(self, h, call, recv, caller_names, expr_body=None):
         """-> (mapping param->expr, prelude statements, rename dict)"""
         fn = h.node
         a = fn.args
@@ -434,7 +496,7 @@ class Inliner:
             bound[kw.arg] = kw.value
         assigned = set()
         uses = {}
-        for n in ast.walk(fn):
+        for n in (ast.walk(expr_body) if expr_body is not None else ast.walk(fn)):
             if isinstance(n, ast.Name):
                 if isinstance(n.ctx, ast.Store):
                     assigned.add(n.id)
@@ -458,7 +520,24 @@ class Inliner:
                 e = defaults[p]
             else:
                 raise NotInlinable("parameter %s unbound" % p)
-            if p in assigned or not (_is_simple(e) or uses.get(p, 0) <= 1 and not _has_effect(e)):
+            direct = _is_simple(e) or (uses.get(p, 0) <= 1 and not _has_effect(e))
+            if direct and not isinstance(e, (ast.Name, ast.Constant)):
+                # an argument that reads object state is evaluated at the call, before the helper's own
+                # stores: substitute it only if the helper stores to nothing the argument reads
+                achains = _chains(e)
+                for n in ast.walk(fn):
+                    if isinstance(n, ast.Attribute) and isinstance(n.ctx, (ast.Store, ast.Del)):
+                        ch = ast.unparse(n)
+                        root_param = ch.split(".")[0]
+                        # the helper's `self.x` is the receiver's x: compare through the receiver mapping
+                        if root_param in mapping and not isinstance(mapping[root_param], ast.Constant):
+                            ch = ast.unparse(mapping[root_param]) + ch[len(root_param):]
+                        if any(ch == r or r.startswith(ch + ".") or ch.startswith(r + ".") for r in achains):
+                            direct = False
+                            break
+                    elif isinstance(n, (ast.AugAssign,)) and isinstance(n.target, ast.Attribute):
+                        pass
+            if p in assigned or not direct:
                 # bind through a local
                 if isinstance(e, ast.Name) and e.id == p and p not in assigned:
                     continue
@@ -540,13 +619,16 @@ class Inliner:
         if h.why_not:
             raise NotInlinable(h.why_not)
         body = _strip_doc(h.node.body)
-        if len(body) != 1 or not isinstance(body[0], ast.Return) or body[0].value is None:
-            raise NotInlinable("not a single-return helper")
-        mapping, prelude, rename = self._bind(h, call, recv, set(caller_names))
+        if len(body) == 1 and isinstance(body[0], ast.Return) and body[0].value is not None:
+            e0 = copy.deepcopy(body[0].value)
+            multi = False
+        else:
+            e0 = _expressionize(body)
+            multi = True
+        mapping, prelude, rename = self._bind(h, call, recv, set(caller_names), expr_body=e0 if multi else None)
         if prelude:
             raise NotInlinable("argument needs a temporary inside an expression")
-        e = copy.deepcopy(body[0].value)
-        e = _Subst(mapping, {}).visit(e)
+        e = _Subst(mapping, {}).visit(e0)
         ast.copy_location(e, call)
         ast.fix_missing_locations(e)
         return e
@@ -554,8 +636,6 @@ class Inliner:
     # -- driver ---------------------------------------------------------------------
     def run(self):
         self.discover()
-        if not self.helpers:
-            return
         for _round in range(self.depth):
             changed = False
             for m in self.modules.values():
@@ -1051,6 +1131,22 @@ class _CopyProp:
         # comprehension nodes are reached by _own_nodes as children: their
         # targets were counted as stores above, which only makes us more careful
 
+        BIG = 10 ** 9
+
+        def horizon(body, i, x):
+            """program-order index of the last use of x, or BIG when a use sits inside a loop that begins
+            after the definition (the loop may run again after a later store)"""
+            last = -1
+            for st2 in body[i + 1 :]:
+                uses = [n for n in ast.walk(st2) if isinstance(n, ast.Name) and n.id == x and isinstance(n.ctx, ast.Load)]
+                if not uses:
+                    continue
+                if isinstance(st2, (ast.For, ast.While, ast.AsyncFor)) or any(isinstance(n, (ast.For, ast.While, ast.AsyncFor)) for n in ast.walk(st2)):
+                    return BIG
+                for u in uses:
+                    last = max(last, order.get(id(u), BIG))
+            return last if last >= 0 else BIG
+
         def try_block(body, in_loop):
             for i, st in enumerate(body):
                 if isinstance(st, ast.Assign) and len(st.targets) == 1 and isinstance(st.targets[0], ast.Name):
@@ -1081,12 +1177,51 @@ class _CopyProp:
                             if "." not in r:
                                 # a name read by the value must not be re-bound after the definition
                                 # (stores that are not plain Name stores -- handlers, nested defs -- count as unknown)
-                                if stores.get(r, 0) != len(name_stores.get(r, [])) or any(ix > order.get(id(st), 0) for ix in name_stores.get(r, [])):
+                                if stores.get(r, 0) != len(name_stores.get(r, [])) or any(order.get(id(st), 0) < ix <= horizon(body, i, x) for ix in name_stores.get(r, [])):
                                     ok = False
                             else:
                                 for ln, ch in store_chains:
-                                    if ln >= order.get(id(st), 0) and (ch == r or r.startswith(ch + ".") or ch.startswith(r + ".")):
+                                    if ln >= order.get(id(st), 0) and ln <= horizon(body, i, x) and (ch == r or r.startswith(ch + ".") or ch.startswith(r + ".")):
                                         ok = False
+                        if ok and any("." in r for r in reads):
+                            # a snapshot of object state: not across a suspension point, and not when the same
+                            # chain is read again next to it after something with an effect happened
+                            # (`f = self._future; await ...; if f is self._future`)
+                            lo, hi = order.get(id(st), 0), horizon(body, i, x)
+                            dotted = {r for r in reads if "." in r}
+                            effect_between = False
+                            for st2 in body[i + 1 :]:
+                                for n2 in ast.walk(st2):
+                                    ix = order.get(id(n2))
+                                    if ix is None or not (lo < ix <= hi):
+                                        continue
+                                    if isinstance(n2, (ast.Await, ast.Yield, ast.YieldFrom)):
+                                        ok = False
+                                    elif isinstance(n2, ast.Call) and not _is_pure(n2):
+                                        effect_between = True
+                            if ok:
+                                # `R.is_x()` reads R's state: a method call on R (or on a prefix/extension of R) in
+                                # between may change it
+                                qrecv = set()
+                                for n2 in ast.walk(st.value):
+                                    if isinstance(n2, ast.Call) and isinstance(n2.func, ast.Attribute) and n2.func.attr.startswith("is_"):
+                                        try:
+                                            qrecv.add(ast.unparse(n2.func.value))
+                                        except Exception:
+                                            pass
+                                if qrecv:
+                                    for st2 in body[i + 1 :]:
+                                        for n2 in ast.walk(st2):
+                                            ix = order.get(id(n2))
+                                            if ix is None or not (lo < ix <= hi):
+                                                continue
+                                            if isinstance(n2, ast.Call) and isinstance(n2.func, ast.Attribute) and not n2.func.attr.startswith("is_"):
+                                                try:
+                                                    rc = ast.unparse(n2.func.value)
+                                                except Exception:
+                                                    continue
+                                                if any(rc == q or rc.startswith(q + ".") or q.startswith(rc + ".") for q in qrecv):
+                                                    ok = False
                         # single-assigned names read by the value must be defined before: they are, by program order
                         if not ok and stores.get(x) == 1 and self._adjacent_only(body, i, x, st.value):
                             ok = True  # nothing happens between the definition and its only use site
@@ -1194,10 +1329,100 @@ def _drop_self_assignments(fn):
                     lst[:] = keep
 
 
+def _split_parallel(fn):
+    """`a, b = x, y` -> `a = x; b = y` when all targets are names, the right side is a display of the same
+    length and no value reads a target of the same statement (then the order of the bindings is immaterial)."""
+    for parent in ast.walk(fn):
+        for field in ("body", "orelse", "finalbody"):
+            lst = getattr(parent, field, None)
+            if not (isinstance(lst, list) and lst and isinstance(lst[0], ast.stmt)):
+                continue
+            out = []
+            changed = False
+            for st in lst:
+                if (isinstance(st, ast.Assign) and len(st.targets) == 1 and isinstance(st.targets[0], (ast.Tuple, ast.List))
+                        and isinstance(st.value, (ast.Tuple, ast.List)) and len(st.targets[0].elts) == len(st.value.elts)
+                        and all(isinstance(t, ast.Name) for t in st.targets[0].elts)
+                        and not any(isinstance(v, ast.Starred) for v in st.value.elts)):
+                    tnames = {t.id for t in st.targets[0].elts}
+                    reads = {n.id for v in st.value.elts for n in ast.walk(v) if isinstance(n, ast.Name)}
+                    if not (tnames & reads) and len(tnames) == len(st.targets[0].elts):
+                        for t, v in zip(st.targets[0].elts, st.value.elts):
+                            out.append(ast.copy_location(ast.Assign(targets=[t], value=v), st))
+                        changed = True
+                        continue
+                out.append(st)
+            if changed:
+                lst[:] = out
+
+
+def _module_constants(m):
+    """module-level names bound exactly once to a display (tuple/list/set/frozenset(...)) of names, attribute
+    chains and constants, and never re-bound or mutated in the module: usable as literal collections"""
+    cnt = {}
+    val = {}
+    for st in m.tree.body:
+        targets = []
+        if isinstance(st, ast.Assign):
+            targets = [t for t in st.targets]
+            v = st.value
+        elif isinstance(st, ast.AnnAssign) and st.value is not None:
+            targets = [st.target]
+            v = st.value
+        for t in targets:
+            for n in ast.walk(t):
+                if isinstance(n, ast.Name):
+                    cnt[n.id] = cnt.get(n.id, 0) + 1
+            if isinstance(t, ast.Name):
+                val[t.id] = v
+    out = {}
+    for name, v in val.items():
+        if cnt.get(name) != 1:
+            continue
+        disp = v
+        if isinstance(v, ast.Call) and isinstance(v.func, ast.Name) and v.func.id in ("frozenset", "set", "tuple", "list") and len(v.args) == 1 and not v.keywords:
+            disp = v.args[0]
+        if isinstance(disp, (ast.Tuple, ast.List, ast.Set)) and disp.elts and all(isinstance(e, (ast.Name, ast.Attribute, ast.Constant)) for e in disp.elts):
+            out[name] = disp
+    if not out:
+        return out
+    for n in ast.walk(m.tree):
+        if isinstance(n, ast.Global):
+            for x in n.names:
+                out.pop(x, None)
+        elif isinstance(n, ast.Call) and isinstance(n.func, ast.Attribute) and isinstance(n.func.value, ast.Name) and n.func.value.id in out and n.func.attr in ("add", "append", "extend", "update", "remove", "discard", "clear", "pop", "insert"):
+            out.pop(n.func.value.id, None)
+        elif isinstance(n, (ast.AugAssign,)) and isinstance(n.target, ast.Name):
+            out.pop(n.target.id, None)
+    return out
+
+
+def _fold_constant_collections(m):
+    """`x in _CONST` / `x not in _CONST` with a module-level constant collection -> `x in (A, B, ...)`"""
+    consts = _module_constants(m)
+    if not consts:
+        return 0
+    n = 0
+    for fn in ast.walk(m.tree):
+        if not isinstance(fn, (ast.FunctionDef, ast.AsyncFunctionDef)):
+            continue
+        shadow = {x.id for x in ast.walk(fn) if isinstance(x, ast.Name) and isinstance(x.ctx, (ast.Store, ast.Del))} | {a.arg for a in fn.args.args + fn.args.kwonlyargs + fn.args.posonlyargs}
+        for c in ast.walk(fn):
+            if isinstance(c, ast.Compare) and len(c.ops) == 1 and isinstance(c.ops[0], (ast.In, ast.NotIn)):
+                r = c.comparators[0]
+                if isinstance(r, ast.Name) and r.id in consts and r.id not in shadow:
+                    c.comparators[0] = ast.copy_location(ast.Tuple(elts=[copy.deepcopy(e) for e in consts[r.id].elts], ctx=ast.Load()), r)
+                    ast.fix_missing_locations(c)
+                    n += 1
+    return n
+
+
 def copyprop_module(m):
     n = 0
+    _fold_constant_collections(m)
     for node in ast.walk(m.tree):
         if isinstance(node, (ast.FunctionDef, ast.AsyncFunctionDef)):
             _drop_self_assignments(node)
+            _split_parallel(node)
             n += _CopyProp(node).run()
     return n
